@@ -281,12 +281,23 @@ def tree_snapshot(root):
     return res
 
 
+_SHARED_MD = {}
+_STORE_COUNT = [0]
+
+
 def apply_op(store, K, op):
     """returns the result class of the protocol: ok | E.."""
     t = op[0]
     try:
         if t == "S":
-            store.store(K(op[1]), op[2], {USER_FIELD: op[3]})
+            # callers may reuse one metadata dictionary object for several keys (finalize_metadata fills it in place):
+            # every other store() of a run hands over the same object, so aliasing between stored entries shows up
+            _STORE_COUNT[0] += 1
+            if _STORE_COUNT[0] % 2:
+                _SHARED_MD[USER_FIELD] = op[3]
+                store.store(K(op[1]), op[2], _SHARED_MD)
+            else:
+                store.store(K(op[1]), op[2], {USER_FIELD: op[3]})
         elif t == "M":
             if op[3] is None and op[4] is None:
                 m = {USER_FIELD: op[2]}
